@@ -127,12 +127,17 @@ def render_lines(model, corruption=None):
             elif k == 'row-add-col':
                 toks.insert(c['pos'], c['token'])
                 seps.insert(0, ' ')
+            elif k == 'row-blank':
+                pass
             elif k in ('row-text', 'row-date', 'row-time', 'row-utim-overlong'):
                 col = {'row-date': 1, 'row-time': 2, 'row-utim-overlong': 0}.get(k, c.get('col'))
                 toks[col] = c['token']
             else:
                 raise DatModelError('corruption %r' % (c,))
         index['rows'].append(len(lines))
+        if c and c.get('row') == i and c['kind'] == 'row-blank':
+            lines.append(c['token'])       # the whole data line wiped out
+            continue
         lines.append(join_tokens(toks, seps) + r['trail'])
     return lines, index
 
@@ -340,7 +345,7 @@ def dat_corruptions(draw, model):
     nrows = len(model['rows'])
     kinds = ['header-rename', 'header-dup-replace', 'header-dup-insert']
     if nrows:
-        kinds += ['row-drop-col', 'row-add-col', 'row-text', 'row-date', 'row-time'] * 2 + ['row-utim-overlong']
+        kinds += ['row-drop-col', 'row-add-col', 'row-text', 'row-date', 'row-time'] * 2 + ['row-utim-overlong', 'row-blank']
     kind = draw(st.sampled_from(kinds))
     c = {'kind': kind}
     if kind == 'header-rename':
@@ -371,6 +376,11 @@ def dat_corruptions(draw, model):
         elif kind == 'row-add-col':
             c['pos'] = draw(st.integers(0, len(header)))
             c['token'] = draw(st.one_of(number_tokens(), st.sampled_from(['0', '0.0', 'x'])))
+        elif kind == 'row-blank':
+            # a data line with nothing on it (empty, blanks, NULs): it does not match the header, whatever follows
+            c['token'] = draw(st.sampled_from(['', ' ', '   ', '\t', ' \t ', '\x00\x00\x00']))
+            if c['token'] == '' and c['row'] == nrows - 1 and not model['final_eol']:
+                c['token'] = ' '        # an empty last line without line end is no line at all: the file is simply shorter
         elif kind == 'row-utim-overlong':
             # digits only, but far beyond any time that a date/time object can hold (year 9999 = 253402300799 s): e.g.
             # two numbers that ran together.  Such a line cannot be "the corresponding date/time object".
